@@ -20,6 +20,13 @@ Theorem no_repoint : forall (a : agent) (is : list input) (d : did) (dc : doc),
 Proof. intros a is d dc. exact (final_mono_vdr is a d dc). Qed.
 Print Assumptions no_repoint.
 
+(* input histories include restarts of the agent (IRestart: a new framework instance over the same persisted stores, run on
+   the real agents between any two steps): the model's restart keeps exactly the persisted maps, and the correspondence
+   checks after every real restart that the peer DID store, the records, the thread and key indices are what they were *)
+Theorem restart_keeps_the_stores : forall (v : variant) (a : agent), step v a IRestart = (a, []).
+Proof. reflexivity. Qed.
+Print Assumptions restart_keeps_the_stores.
+
 (* the same for the index that attributes inbound messages: a key linked to a DID stays linked to it *)
 Theorem attribution_index_stable : forall (a : agent) (is : list input) (k : key) (d : did),
   kget (a_keyidx a) k = Some d -> kget (a_keyidx (final Fixed a is)) k = Some d.
